@@ -535,6 +535,11 @@ def InterceptPrintsDuringPromptCtx(ip):
             # This could be a Jupyter console/notebook.
             return NullCtx()
 
+        if not hasattr(ip, "pt_cli"):
+            # IPython 5+ with prompt_toolkit 2+ has ``pt_app`` instead of
+            # ``pt_cli``; there is nothing we know how to redisplay through.
+            return NullCtx()
+
         def pre():
             sys.stdout.write("\n")
             sys.stdout.flush()
